@@ -187,6 +187,38 @@ theorem mem_topoCleanup {t : List TopoRow} {p : String} {v : Svc} {e : SvcX} {r'
         · simp at hf; subst hf; exact ⟨r, hr, rfl, rfl⟩
       · simp at hf; subst hf; exact ⟨r, hr, rfl, rfl⟩
 
+/-- the keys `updateMeshTopology` deletes: upstreams the existing row had and the request does not name -/
+def droppedKeys (q : SvcReq) (existing : Option (Svc × SvcX)) : List String :=
+  match existing with
+  | some r => (r.2.ups.filter fun u => !q.ups.contains u).map fun u => pk2 u q.dest
+  | none => []
+
+theorem topoEnsure_spec (t : List TopoRow) (idx : Nat) (node : String) (q : SvcReq) (ex : Option (Svc × SvcX))
+    (hc : q.kind = .connectProxy ∨ q.native = true) :
+    (∀ r ∈ topoEnsure t idx node q ex, r ∈ t ∨ ∃ u ∈ q.ups, r.pk = pk2 u q.dest) ∧
+    ((∀ r ∈ t, NF r.dn) → NF q.dest → ∀ r ∈ topoEnsure t idx node q ex, NF r.dn) ∧
+    (∀ u ∈ q.ups, pk2 u q.dest ∉ droppedKeys q ex → ∃ r ∈ topoEnsure t idx node q ex, r.pk = pk2 u q.dest) := by
+  unfold topoEnsure
+  rw [if_pos hc]
+  simp only
+  obtain ⟨a1, a2, a3⟩ := addLoop idx q.dest (uidOf node q.id) q.ups t
+  have hd := dropLoop q.ups q.dest (match ex with | some r => r.2.ups | none => [])
+    (q.ups.foldl (fun t u => topoAddRef t idx u q.dest (uidOf node q.id)) t)
+  have hdk : droppedKeys q ex = ((match ex with | some r => r.2.ups | none => []).filter fun u => !q.ups.contains u).map fun u => pk2 u q.dest := by
+    unfold droppedKeys; cases ex <;> rfl
+  refine ⟨?_, ?_, ?_⟩
+  · intro r hr
+    exact a1 r ((hd r).mp hr).1
+  · intro ht hdn r hr
+    exact nf_addLoop idx q.dest (uidOf node q.id) hdn q.ups t ht r ((hd r).mp hr).1
+  · intro u hu hnd
+    obtain ⟨r, hr, hk⟩ := a3 u hu
+    exact ⟨r, (hd r).mpr ⟨hr, by rw [hk, ← hdk]; exact hnd⟩, hk⟩
+
+theorem topoEnsure_off (t : List TopoRow) (idx : Nat) (node : String) (q : SvcReq) (ex : Option (Svc × SvcX))
+    (hc : ¬ (q.kind = .connectProxy ∨ q.native = true)) : topoEnsure t idx node q ex = t := by
+  unfold topoEnsure; rw [if_neg hc]
+
 /-! ### the invariant -/
 
 section Inv
@@ -312,6 +344,164 @@ theorem gi_configDelete (hGn : ∀ n ∈ Gn, NF n) (g : GState) (idx : Nat) (kin
     (decl_of_rows (fun q => by rw [f.cat q])) (fun r hr => ?_) (fun _ hk => hk) (fun _ hk => hk) h
   have : (configDelete g.x kind name).loc = g.x.loc := f.loc
   rw [← this]; exact hr
+
+theorem existingRow_of_mem {x : XState} {p node id : String} {r : Svc × SvcX}
+    (h : svcFind (x.cat p).st node id = some r.1 ∧ extFind (x.cat p) node id = some r.2) : existingRow x p node id = some r := by
+  unfold existingRow
+  rw [h.1, h.2]
+
+theorem gi_ensureService (hGn : ∀ n ∈ Gn, NF n) {g g' : GState} {p node : String} {idx : Nat} {q : SvcReq} (hw : WG Gn q)
+    (he : ensureServiceG g p idx node q = .ok g') (h : GI Gn g) : GI Gn g' := by
+  unfold ensureServiceG at he
+  cases hx : ensureServiceX g.x p idx node q with
+  | error e => rw [hx] at he; simp at he
+  | ok x' =>
+    rw [hx] at he
+    simp only at he
+    injection he with he
+    subst he
+    have spec := ensureServiceX_spec hx (h.dinv.side.srt p)
+    obtain ⟨v, e, hn, hk, hkind, hcn, hvip, hmem, hrows, hkeep, hfind⟩ := spec.row
+    have hattr := spec.attrs (v, e) hmem hk
+    -- the tables
+    generalize hex : existingRow g.x p node q.id = ex
+    have s1 : TStep Gn g.t (if p = "" ∧ q.kind = .typical ∧ q.name ≠ "consul" then
+        gwCheck (gwCheckWildcards g.t g.x idx q.name (some (decide (q.kind = .connectProxy ∨ q.native = true))) .service) idx q.name .service
+      else g.t) := by
+      split
+      · have a := tstep_gwCheckWildcards hGn h.tok g.x idx q.name (some (decide (q.kind = .connectProxy ∨ q.native = true))) .service
+        exact a.trans (tstep_gwCheck hGn a.ok idx q.name .service)
+      · exact TStep.refl h.tok
+    generalize hT1 : (if p = "" ∧ q.kind = .typical ∧ q.name ≠ "consul" then
+        gwCheck (gwCheckWildcards g.t g.x idx q.name (some (decide (q.kind = .connectProxy ∨ q.native = true))) .service) idx q.name .service
+      else g.t) = T1 at s1
+    -- membership of the final topology: a row of T1, or an added key (connect registrations only)
+    have hT' : TOk Gn (ensureHooks g.t g.x p idx node q) ∧
+        (∀ r ∈ (ensureHooks g.t g.x p idx node q).topo, lc r.dn ∉ Gn →
+          r ∈ g.t.topo ∨ ((q.kind = .connectProxy ∨ q.native = true) ∧ ∃ u ∈ q.ups, r.pk = pk2 u q.dest)) ∧
+        (∀ u ∈ q.ups, (q.kind = .connectProxy ∨ q.native = true) → pk2 u q.dest ∉ droppedKeys q ex →
+          hasTopo (ensureHooks g.t g.x p idx node q).topo (pk2 u q.dest) = true) := by
+      unfold ensureHooks
+      simp only
+      rw [hT1, hex]
+      by_cases hc : q.kind = .connectProxy ∨ q.native = true
+      · rw [if_pos hc]
+        obtain ⟨b1, b2, b3⟩ := topoEnsure_spec T1.topo idx node q ex hc
+        have ok2 : TOk Gn { T1 with topo := topoEnsure T1.topo idx node q ex } := ⟨s1.ok.names, b2 s1.ok.nf hw.2.1⟩
+        have s3 := tstep_gwCheckWildcards hGn ok2 g.x idx (if q.kind = .connectProxy then q.dest else q.name) (some true) .service
+        refine ⟨s3.ok, ?_, ?_⟩
+        · intro r hr hout
+          rcases b1 r ((s3.out r hout).mp hr) with h1 | h1
+          · exact Or.inl ((s1.out r hout).mp h1)
+          · exact Or.inr ⟨hc, h1⟩
+        · intro u hu _ hnd
+          obtain ⟨r, hr, hkr⟩ := b3 u hu hnd
+          rw [hasTopo_iff]
+          have : lc r.dn ∉ Gn := by rw [(pk2_inj_right (ok2.nf r hr) hw.2.1 hkr).2]; exact hw.2.2
+          exact ⟨r, (s3.out r this).mpr hr, hkr⟩
+      · rw [if_neg hc]
+        exact ⟨s1.ok, fun r hr hout => Or.inl ((s1.out r hout).mp hr), fun u _ hc' _ => absurd hc' hc⟩
+    obtain ⟨tok', tmem, tadd⟩ := hT'
+    -- the rows
+    have hexr : ∀ r ∈ (g.x.cat p).rows, r.1.pk = pk2 node q.id → ex = some r := by
+      intro r hr hkr
+      rw [← hex]; exact existingRow_of_mem (hfind r hr hkr)
+    have decl_keep : ∀ k, Decl g.x k → Decl x' k ∨ ∃ r, ex = some r ∧ declares k r = true := by
+      rintro k ⟨q0, r0, hr0, hd0⟩
+      by_cases hsp : samePeer p q0
+      · rw [cat_of_samePeer g.x hsp] at hr0
+        by_cases hkey : r0.1.pk = pk2 node q.id
+        · exact Or.inr ⟨r0, hexr r0 hr0 hkey, hd0⟩
+        · exact Or.inl ⟨p, r0, hkeep r0 hr0 hkey, hd0⟩
+      · exact Or.inl ⟨q0, r0, by rw [spec.other q0 hsp]; exact hr0, hd0⟩
+    have newdecl : q.kind = .connectProxy → ∀ u ∈ q.ups, Decl x' (pk2 u q.dest) := by
+      intro hkp u hu
+      refine ⟨p, (v, e), hmem, ?_⟩
+      rw [declares_iff]
+      exact ⟨by rw [hattr.2.2]; exact hkp, u, by rw [hattr.2.1]; exact hu, by rw [hattr.1]⟩
+    have locrows : ∀ rr ∈ x'.loc.rows, (p = "" ∧ rr = (v, e)) ∨ rr ∈ g.x.loc.rows := by
+      intro rr hrr
+      rw [loc_eq_cat] at hrr
+      by_cases hp : p = ""
+      · subst hp
+        rcases hrows rr hrr with h1 | ⟨h1, -⟩
+        · exact Or.inl ⟨rfl, h1⟩
+        · exact Or.inr (by rw [loc_eq_cat]; exact h1)
+      · rw [spec.other "" (not_samePeer_empty hp)] at hrr
+        exact Or.inr (by rw [loc_eq_cat]; exact hrr)
+    refine ⟨dinv_ensureService hw.1 hx h.dinv, tok', ?_, ?_⟩
+    · -- soundness or known
+      intro r hr hout
+      have hstale : ∀ k, k ∈ g.gh.staleTopo → k ∈ (ghostEnsure g.gh x' g.t.topo (ensureHooks g.t g.x p idx node q).topo q ex).staleTopo :=
+        fun k hk' => List.mem_append_left _ hk'
+      -- a candidate key: declared in the new state, or listed
+      have cand : r.pk ∈ ((if (q.kind = .connectProxy ∨ q.native = true) ∧ q.kind ≠ .connectProxy then q.ups.map fun u => pk2 u q.dest else []) ++
+          (match ex with | some r => pairsOf r | none => [])) →
+          Decl x' r.pk ∨ r.pk ∈ (ghostEnsure g.gh x' g.t.topo (ensureHooks g.t g.x p idx node q).topo q ex).staleTopo := by
+        intro hc
+        cases hsd : sidecarDeclared x' r.pk with
+        | true => exact Or.inl (sidecarDeclared_iff.mp hsd)
+        | false =>
+          right
+          unfold ghostEnsure
+          simp only
+          apply List.mem_append_right
+          rw [List.mem_filter]
+          refine ⟨hc, ?_⟩
+          rw [hsd, hasTopo_iff.mpr ⟨r, hr, rfl⟩]; rfl
+      rcases tmem r hr hout with hold | ⟨hc, u, hu, hkr⟩
+      · rcases h.sound r hold hout with hd | hs
+        · rcases decl_keep r.pk hd with h1 | ⟨r0, hr0, hd0⟩
+          · exact Or.inl h1
+          · apply cand
+            apply List.mem_append_right
+            rw [hr0]
+            exact mem_pairsOf.mpr hd0
+        · exact Or.inr (hstale _ hs)
+      · by_cases hkp : q.kind = .connectProxy
+        · rw [hkr]; exact Or.inl (newdecl hkp u hu)
+        · apply cand
+          apply List.mem_append_left
+          rw [if_pos ⟨hc, hkp⟩, hkr]
+          exact List.mem_map.mpr ⟨u, hu, rfl⟩
+    · -- completeness or known
+      intro rr hrr hkp hout hnf u hu
+      cases hT : hasTopo (ensureHooks g.t g.x p idx node q).topo (pk2 u rr.2.dest) with
+      | true => exact Or.inl rfl
+      | false =>
+        right
+        have hloc : localDeclared x' (pk2 u rr.2.dest) = true :=
+          localDeclared_iff.mpr ⟨rr, hrr, declares_iff.mpr ⟨hkp, u, hu, rfl⟩⟩
+        have fin : pk2 u rr.2.dest ∈ (if q.kind = .connectProxy ∨ q.native = true then droppedKeys q ex else []) ++
+            (g.t.topo.filter fun row => !hasTopo (ensureHooks g.t g.x p idx node q).topo row.pk).map TopoRow.pk →
+            pk2 u rr.2.dest ∈ (ghostEnsure g.gh x' g.t.topo (ensureHooks g.t g.x p idx node q).topo q ex).lostTopo := by
+          intro hc
+          unfold ghostEnsure
+          simp only
+          apply List.mem_append_right
+          rw [List.mem_filter]
+          refine ⟨?_, by rw [hT, hloc]; rfl⟩
+          unfold droppedKeys at hc
+          exact hc
+        rcases locrows rr hrr with ⟨hp, hnew⟩ | hold
+        · subst hnew
+          have hconn : q.kind = .connectProxy ∨ q.native = true := Or.inl (by rw [← hattr.2.2]; exact hkp)
+          have hu' : u ∈ q.ups := by rw [← hattr.2.1]; exact hu
+          simp only [hattr.1] at hT ⊢ fin
+          apply fin
+          apply List.mem_append_left
+          rw [if_pos hconn]
+          apply Classical.byContradiction
+          intro hnd
+          rw [tadd u hu' hconn hnd] at hT
+          cases hT
+        · rcases h.complete rr hold hkp hout hnf u hu with h1 | h1
+          · apply fin
+            apply List.mem_append_right
+            obtain ⟨r0, hr0, hk0⟩ := hasTopo_iff.mp h1
+            refine List.mem_map.mpr ⟨r0, List.mem_filter.mpr ⟨hr0, ?_⟩, hk0⟩
+            rw [hk0, hT]; rfl
+          · exact List.mem_append_left _ h1
 
 end Inv
 
